@@ -97,6 +97,11 @@ def explore(drv, job, k=None, cap=4000, H=None, audit_every=0, order=None, max_d
 
     def order_actions(world):
         acts = world.actions()
+        if order:
+            # job-specific default schedule: e.g. ["IL","S","UL","UR","IR"] = remote events are taken in only when
+            # nothing else can happen (a slow poller); deviations are counted against this order
+            rank = {a: i for i, a in enumerate(order)}
+            return sorted(acts, key=lambda a: rank.get(a, len(rank)))
         eng = [a for a in acts if a in ENGINE]
         rest = [a for a in acts if a not in ENGINE and a not in ("UL", "UR")]
         usr = [a for a in acts if a in ("UL", "UR")]
